@@ -29,6 +29,7 @@ static char g_nm[2] = "s";
 const char *SelectName(const char *n) { (void)n; return g_nm; }
 const char *TypeDescriptorName(Type t) { (void)t; return g_nm; }
 int isAggregateType(const Type t) { (void)t; return 0; }
+const char *StrToUpper(const char *w) { return w; }   /* name helper (classes_misc.c) */
 
 /* C17 (generator side, selects): a select gets its own files exactly once iff it is not a rename;
  * C06/C12: the mark left on a processed select stays valid memory, so that a later call for the same type
